@@ -168,7 +168,7 @@ theorem records_are_closed (fs : List (String × JsonShape)) :
       applyAction k .unsetStructural = .error (immutableTarget k)) ∧
     (∀ k, k ≠ .concept → k ≠ .proposition → applyAction k .setAttributes = .error (immutableTarget k) ∧
       applyAction k .unsetAttributes = .error (immutableTarget k)) := by
-  refine ⟨by decide, by decide, by decide, by decide, ?_, ?_⟩
+  refine ⟨by rfl, by rfl, by rfl, by rfl, ?_, ?_⟩
   · intro k hk
     cases k <;> first | exact absurd rfl hk | decide
   · intro k hk hp
